@@ -9,6 +9,7 @@ import (
 	"golang.org/x/crypto/ssh/agent"
 
 	"github.com/theparanoids/ysshra/agent/shimagent"
+	"github.com/theparanoids/ysshra/agent/yubiagent"
 	"github.com/theparanoids/ysshra/verifharness/lib/ev"
 	"github.com/theparanoids/ysshra/verifharness/lib/gen"
 	"github.com/theparanoids/ysshra/verifharness/lib/wire"
@@ -99,4 +100,89 @@ func slowUpstream(r *ev.Run) {
 		r.Count("operations queued behind a 4.5 s upstream exchange, all answered with their own replies", 5)
 		r.Nontrivial("slow-upstream")
 	})
+}
+
+// stalledPeer: one connection to a served shim sends a relayed request with a large reply and then stops reading (or
+// hangs up at once). What that peer does with its reply is its own business: every other connection is served as usual
+// and gets its own replies.
+func stalledPeer(r *ev.Run) {
+	for ci, mode := range []string{"stops-reading", "hangs-up"} {
+		c := r.Case("stalled-peer", ci)
+		if c == nil {
+			continue
+		}
+		rec := map[string]any{"first_connection": mode}
+		r.Eval(1)
+		r.Guard(c, "stalled peer", rec, func() {
+			ag := wire.New()
+			defer ag.Close()
+			sock, err := ag.Listen()
+			if err != nil {
+				r.Inconclusive(err.Error())
+				return
+			}
+			ag.Keyring.Add(agent.AddedKey{PrivateKey: gen.Pool()[0].Priv, Comment: "k"})
+			srv, err := yubiagent.NewServer(sock, true)
+			if err != nil {
+				r.Violation(c, "server-construction-fails-without-fault", err.Error(), rec)
+				return
+			}
+			a1, a2, err := wire.SocketPair()
+			if err != nil {
+				r.Inconclusive(err.Error())
+				return
+			}
+			go func() { defer a2.Close(); defer func() { recover() }(); yubiagent.ServeAgent(srv, a2) }()
+			big := append([]byte{200}, bytes.Repeat([]byte("stalled-peer-payload "), 100000)...) // echoed: a reply of ~2 MiB
+			go a1.Write(wire.Frame(big))
+			if mode == "hangs-up" {
+				time.Sleep(2 * time.Millisecond)
+				a1.Close()
+			} else {
+				defer a1.Close()
+			}
+			time.Sleep(50 * time.Millisecond)
+			b1, b2, err := wire.SocketPair()
+			if err != nil {
+				r.Inconclusive(err.Error())
+				return
+			}
+			defer b1.Close()
+			go func() { defer b2.Close(); defer func() { recover() }(); yubiagent.ServeAgent(srv, b2) }()
+			cl, err := yubiagent.NewClientFromConn(b1)
+			if err != nil {
+				r.Violation(c, "client-construction-fails", err.Error(), rec)
+				return
+			}
+			type res struct {
+				what string
+				ok   bool
+				err  error
+			}
+			done := make(chan res, 4)
+			go func() {
+				l, err := cl.List()
+				done <- res{"list", err == nil && len(l) == 1, err}
+				tag := append([]byte{200}, []byte("second-connection")...)
+				resp, err := cl.Forward(tag)
+				done <- res{"forward", err == nil && bytes.Equal(resp, tag), err}
+				l, err = cl.List()
+				done <- res{"list", err == nil && len(l) == 1, err}
+			}()
+			for i := 0; i < 3; i++ {
+				select {
+				case x := <-done:
+					if !x.ok {
+						r.Violation(c, "reply-does-not-match-request:"+x.what+":stalled-peer:"+mode, fmt.Sprintf("the second connection's %s: err=%v", x.what, x.err), rec)
+						return
+					}
+				case <-time.After(ev.OpTimeout()):
+					r.Violation(c, "operation-does-not-complete:stalled-peer:"+mode, "an operation on the second connection did not return while the first connection was not reading its reply", rec)
+					return
+				}
+			}
+			r.Count("operations on a second connection while the first one "+mode, 3)
+			r.Nontrivial("stalled-peer:" + mode)
+		})
+	}
 }
